@@ -55,6 +55,19 @@ CHECKS = {
         "marked table or onto an existing table); the canonical projection's soundness argument (DESIGN.md C03).",
         "DESIGN.md section 5 C03",
     ),
+    "C01": (
+        "vmc/c01.py (E1 deviation-bounded explorer vmc/explorer.py + E6 generator/renderer vmc/sqlgen.py + reference vmc/refsem.py)",
+        "exploration",
+        "deviation-bounded exhaustive enumeration of a core-SQL grammar (all choice sequences with <= D departures from the simplest statement), "
+        "real LineageRunner vs. executable reference semantics, per accepting dialect",
+        "Every statement the generator can produce with at most 2 (quick) / 3 (thorough) deviations from the default choice at its labelled choice "
+        "points (statement kind x query form x FROM shape x relation kind x WHERE form x select-list form x tail, nesting <= 2), rendered under 7 "
+        "(quick) / all 28 (thorough) sqlfluff dialects, is analysed by the real runner; sources and target must equal the reference exactly. "
+        "Exhaustive for the stated bound; compositions of two/three shapes are exactly where the suite is blind.",
+        "Trusted: refsem.tables (reference semantics from the property text, self-tested); sqlfluff as the judge of which dialect accepts a text; "
+        "known findings are matched exactly (dialect, text, observed answer) from pins/C01.json.",
+        "DESIGN.md section 5 C01",
+    ),
 }
 
 NOT_YET = "check not built yet in this revision (planned in DESIGN.md section 5/11); not claimed"
